@@ -241,6 +241,9 @@ def route(rc):
                 "both decided by the back-door validator", construct="frontdoor via backdoor validator")
     for fn_ in repo.module(CI).classes["CausalInference"].methods.values():
         for c in repo.calls_in(fn_):
+            if call_name(c) in ("all_simple_paths", "all_simple_edge_paths", "has_path", "shortest_path") and (kwarg(c, "cutoff") is not None or (call_name(c).startswith("all_simple") and len(c.args) > 3)):
+                rc.fail(fn_, c, f"{fn_.qual}: `{norm(c, 70)}` bounds the path search: the graphical criteria quantify over ALL directed paths (with latent variables a path can be longer "
+                        "than the number of observed variables)", construct=f"{fn_.qual} bounded path search")
             if call_name(c) == "active_trail_nodes":
                 il = kwarg(c, "include_latents")
                 if not (isinstance(il, ast.Constant) and il.value is True):
